@@ -297,8 +297,8 @@ async fn on_event<K, V, LC>(
             }
         }
         MapMessage::Clear => {
+            let old_map = mem::take(map);
             if dispatch {
-                let old_map = mem::take(map);
                 lifecycle.on_clear(old_map).await;
             }
         }
